@@ -174,7 +174,7 @@ class Pair:
     """A connected, optionally authenticated client/server pair."""
 
     def __init__(self, loop, sopts=None, copts=None, env=None, connect=True,
-                 wait='auth'):
+                 wait='auth', caddr=('127.0.0.1', 40001), saddr=('127.0.0.1', 22)):
         self.loop = loop
         self.env = env if env is not None else {}
         env = self.env
@@ -194,7 +194,7 @@ class Pair:
         self.client_owner = None
         self.s = asyncssh.SSHServerConnection(loop, self.sopt, wait=wait)
         self.c = asyncssh.SSHClientConnection(loop, self.copt, wait=wait)
-        self.ct, self.st = loop.make_pair(self.c, self.s, labels=('client', 'server'))
+        self.ct, self.st = loop.make_pair(self.c, self.s, caddr, saddr, labels=('client', 'server'))
         if connect:
             self.s.connection_made(self.st)
             self.c.connection_made(self.ct)
